@@ -118,6 +118,11 @@ func verifC40Det(req, gd string) {
 func VerifHarness_C40_det() {
 	free := verifrt.NondetByte()
 	verifrt.Assume(free < 0x80)
+	// veriffs treats '\\' as a path separator (it normalises it to '/'),
+	// whereas the linux path/filepath code under test treats it as an
+	// ordinary name byte: "\\.." would be a stub artefact, not an escape.
+	// The chaos harnesses cover the backslash.
+	verifrt.Assume(free != '\\')
 	req := verifC40Bytes(verifrt.Range(0, verifrt.Param("N")), free)
 	gd := verifC40Bytes(verifrt.Range(0, verifrt.Param("M")), free)
 	verifC40Det(req, gd)
